@@ -31,6 +31,6 @@ def run(rep, tier):
     cfgs = ["x86"] if tier == "quick" else ["x86", "arm", "wasm"]
     for cfg, prog in programs(cfgs):
         rep.set_cfg(cfg)
-        kernel_sign(rep, prog, "C18.kernel-sign")
-        simd_rules.zero_extend(rep, prog, "C18.zero-extend")
-        simd_rules.conv_saturate(rep, prog, "C18.saturate")
+        rep.call(kernel_sign, rep, prog, "C18.kernel-sign")
+        rep.call(simd_rules.zero_extend, rep, prog, "C18.zero-extend")
+        rep.call(simd_rules.conv_saturate, rep, prog, "C18.saturate")
